@@ -226,10 +226,14 @@ in `GenericModel.getdXdt` forbids it).  Whether the iterator then holds private 
 model's work array depends on the flatten function: `np.hstack` / `np.concatenate` allocate
 (`shared = false`), the identity default of a bare DESolver and a `np.reshape` view do not
 (`shared = true`).  With a shared array a stage derivative that is read AFTER a later call of the
-right-hand side has the value of that later call.  `rk4IterBuf` is `RK4Iterator` (Iterators.py
-66-83) with every read of k1..k4 resolved accordingly; the reads are where the code has them:
-`updateX(X_old, k1, dt/2)` before call 2, `k1 + 2*k2` after call 2, `updateX(X_old, k2, dt/2)`
-before call 3, `+= 2*k3` after call 3, `+= k4` after call 4. -/
+right-hand side has the value of that later call (`readK`).
+
+`rk4IterBuf` is `RK4Iterator` (Iterators.py 66-85) with every read of a stage derivative resolved
+that way, the reads where the code has them: `updateX(X_old, k1, dt/2)` and the private copy
+`k1 = 1*k1` (line 71, repair be993b1) before call 2, `k1 + 2*k2` and `updateX(X_old, k2, dt/2)`
+after call 2, `+= 2*k3` and `updateX(X_old, k3, dt)` after call 3, `+= k4` after call 4.
+`rk4IterBufNoCopy` is the iterator WITHOUT line 71 (the code before the repair): there `k1` is read
+after call 2. -/
 
 section buf
 variable {α V : Type} [Add α] [Mul α] [Div α]
@@ -238,26 +242,45 @@ variable {α V : Type} [Add α] [Mul α] [Div α]
 the work array's current content when it holds the model's array -/
 def readK (shared : Bool) (own current : V) : V := if shared then current else own
 
-/-- RK4Iterator when the right-hand side returns one reused work array -/
+/-- RK4Iterator (as it is) when the right-hand side returns one reused work array -/
 def rk4IterBuf [OfNat α 2] [OfNat α 6] (shared : Bool) (o : VecOps α V) (f : α → V → V) (dt t : α) (x : V) :
     IterOut α V :=
-  let k1 := f t x
-  let xk1 := updateX o x k1 (dt / 2)                         -- work array holds k1
+  let k1 := f t x                                            -- work array holds k1
+  let xk1 := updateX o x (readK shared k1 k1) (dt / 2)
+  let k1own := readK shared k1 k1                            -- `k1 = 1*k1`: a new array, taken while the work array holds k1
   let k2 := f (t + dt / 2) xk1                               -- work array now holds k2
-  let sum2 := o.add (readK shared k1 k2) (o.smul 2 k2)       -- `dxdtsum = k1 + 2*k2`
-  let xk2 := updateX o x k2 (dt / 2)
+  let sum2 := o.add k1own (o.smul 2 (readK shared k2 k2))    -- `dxdtsum = k1 + 2*k2` (a new array)
+  let xk2 := updateX o x (readK shared k2 k2) (dt / 2)
   let k3 := f (t + dt / 2) xk2                               -- work array now holds k3
-  let sum3 := o.add sum2 (o.smul 2 k3)                       -- `dxdtsum += 2*k3` (dxdtsum is a new array)
-  let xk3 := updateX o x k3 dt
+  let sum3 := o.add sum2 (o.smul 2 (readK shared k3 k3))     -- `dxdtsum += 2*k3`
+  let xk3 := updateX o x (readK shared k3 k3) dt
   let k4 := f (t + dt) xk3
-  let sum := o.add sum3 k4
+  let sum := o.add sum3 (readK shared k4 k4)
+  { xnew := updateX o x (o.sdiv sum 6) dt,
+    calls := [(t, x), (t + dt / 2, xk1), (t + dt / 2, xk2), (t + dt, xk3)],
+    xold := x }
+
+/-- NOT the code: RK4Iterator before repair be993b1 (no private copy of k1) -/
+def rk4IterBufNoCopy [OfNat α 2] [OfNat α 6] (shared : Bool) (o : VecOps α V) (f : α → V → V) (dt t : α) (x : V) :
+    IterOut α V :=
+  let k1 := f t x
+  let xk1 := updateX o x (readK shared k1 k1) (dt / 2)
+  let k2 := f (t + dt / 2) xk1                               -- work array now holds k2
+  let sum2 := o.add (readK shared k1 k2) (o.smul 2 (readK shared k2 k2))   -- k1 read AFTER call 2
+  let xk2 := updateX o x (readK shared k2 k2) (dt / 2)
+  let k3 := f (t + dt / 2) xk2
+  let sum3 := o.add sum2 (o.smul 2 (readK shared k3 k3))
+  let xk3 := updateX o x (readK shared k3 k3) dt
+  let k4 := f (t + dt) xk3
+  let sum := o.add sum3 (readK shared k4 k4)
   { xnew := updateX o x (o.sdiv sum 6) dt,
     calls := [(t, x), (t + dt / 2, xk1), (t + dt / 2, xk2), (t + dt, xk3)],
     xold := x }
 
 /-- ExplicitEulerIterator: the single derivative is consumed before any other call -/
-def eulerIterBuf (_shared : Bool) (o : VecOps α V) (f : α → V → V) (dt t : α) (x : V) : IterOut α V :=
-  eulerIter o f dt t x
+def eulerIterBuf (shared : Bool) (o : VecOps α V) (f : α → V → V) (dt t : α) (x : V) : IterOut α V :=
+  let k := f t x
+  { xnew := updateX o x (readK shared k k) dt, calls := [(t, x)], xold := x }
 
 end buf
 
@@ -267,8 +290,11 @@ end buf
 array, an int).  Solver.py 134-139 clamps the proposal and returns `float(dt)`: the VALUE the model
 proposed — a number of the coarser format — as a double.  So a format enters a run only as a
 rounding function `rnd` applied to the proposal (`stepDtR`); the clock, the remaining time, the
-stage times and the state update all use that one double.  `stepXC` is the variant in which the
-clock itself is kept in a coarser format (`rndc` applied to `currTime + dt`: what
+stage times and the state update all use that one double.  `DESolver.solve` converts the
+start and end time the same way at entry (`t0, tf = float(t0), float(tf)`, Solver.py 193, repair
+8c6977e): they enter the loop as the doubles `t0`, `tf` of `solveX`.  `stepXC` is NOT the code: the
+variant in which the clock itself is kept in a coarser format (what happened for a reduced-precision
+start time before 8c6977e, and what a step that is not converted by `float(dt)` does) (`rndc` applied to `currTime + dt`: what
 `currTime += np.float32(dt)` does under NumPy-2 promotion) while the state is advanced with dt. -/
 
 section fmt
